@@ -209,7 +209,7 @@ func gRunChild(dir, prop string, in gBatchIn, tag string, timeout time.Duration,
 				cmd.Process.Kill()
 			}
 			var sums []gSummary
-			if ob, err := os.ReadFile(outF); err == nil && json.Unmarshal(ob, &sums) == nil {
+			if ob, err := os.ReadFile(outF); err == nil && gUnmarshalExact(ob, &sums) == nil {
 				onInterrupt(sums)
 			}
 		})()
@@ -249,7 +249,7 @@ func gRunChild(dir, prop string, in gBatchIn, tag string, timeout time.Duration,
 		res.exit = "no result file: " + err.Error()
 		return res
 	}
-	if err := json.Unmarshal(ob, &res.sums); err != nil || len(res.sums) != len(in.Jobs) {
+	if err := gUnmarshalExact(ob, &res.sums); err != nil || len(res.sums) != len(in.Jobs) {
 		res.exit = fmt.Sprintf("bad result file: %v (%d summaries for %d jobs)", err, len(res.sums), len(in.Jobs))
 		return res
 	}
@@ -356,6 +356,15 @@ func gMerge(r *lib.Result, sums []gSummary, maxSamples int) (lines, impl []strin
 		}
 	}
 	return
+}
+
+// gUnmarshalExact is json.Unmarshal that keeps the numbers inside untyped members (the replay inputs and samples of
+// the summaries) as they are written: a 63-bit generator seed read as a float64 comes out rounded, and the replay
+// file would then describe another case.
+func gUnmarshalExact(b []byte, v any) error {
+	d := json.NewDecoder(bytes.NewReader(b))
+	d.UseNumber()
+	return d.Decode(v)
 }
 
 func gJSON(v any) json.RawMessage {
